@@ -55,6 +55,8 @@ fn date_parts() -> Vec<(&'static str, bool, usize)> {
         ("MMM", false, 0),
         ("d", false, 0),
         ("yyyyéMMédd", true, 0),
+        ("yyyy年MM月dd日", true, 0),
+        ("d€M€y", true, 0),
     ]
 }
 
@@ -85,6 +87,12 @@ fn time_parts() -> Vec<(&'static str, bool)> {
         ("HH'h'mm'm'", false),
         ("mm:ss", false),
         ("HH", false),
+        // unquoted multi-byte literals between and after time fields
+        ("HH時mm分ss秒", false),
+        ("HH·mm·ss.nnnnn", true),
+        ("h時m分 a", false),
+        ("hh–mm–ss a", false),
+        ("HH:mm:ss€", false),
     ]
 }
 
